@@ -289,7 +289,7 @@ PTR_LIMIT = 0x4000
 PTR14_AUDIT = {
     # HashEntry.tail is only a lookup key (compared against `position`), never OR-ed with the tag:
     # C02.ptr14.emit checks that the emitted value comes from the `head` field only.
-    (MB + "HashEntry::new", "tail"): "lookup key only; bounded by head + 64 < 0x10000",
+    (MB + "HashEntry::new", "->tail"): "lookup key only; bounded by head + 64 < 0x10000",
 }
 
 
@@ -368,7 +368,9 @@ def rule_ptr14(ctx, F):
                 if st[2][3] != "u16" or st[2][4] != "usize":
                     continue
                 opnd = deep_strip(b.term_of_operand(st[2][2]))
-                name = _var_of(b, st[2][2]) or show(opnd)
+                # name the site by the role of the narrowed value (the struct field it is stored into),
+                # falling back to the variable's name
+                name = _dest_field(b, st[1]) or _var_of(b, st[2][2]) or show(opnd)
                 if (strip_path(p), name) in PTR14_AUDIT:
                     ctx.ob(R + ".store", b, "narrow %s (audited)" % name, True, nontrivial=False,
                            detail=PTR14_AUDIT[(strip_path(p), name)])
@@ -406,6 +408,26 @@ def _capture(F, b, t):
                     ops = st[2][2]
                     if t[2] < len(ops):
                         return pb, bi, deep_strip(pb.term_of_operand(ops[t[2]]))
+    return None
+
+
+def _dest_field(b, place):
+    """name of the struct field the value assigned to `place` ends up in (via copies), if any"""
+    if len(place) != 1:
+        return None
+    locs = {place[0]}
+    for _ in range(3):
+        for blk in b.blocks:
+            for st in blk["s"]:
+                if st[0] != "=":
+                    continue
+                rv = st[2]
+                if rv[0] == "use" and rv[1][0] in ("c", "m") and len(rv[1][1]) == 1 and rv[1][1][0] in locs and len(st[1]) == 1:
+                    locs.add(st[1][0])
+                if rv[0] == "agg" and rv[1][0] == "adt" and len(rv[1]) > 3:
+                    for i, o in enumerate(rv[2]):
+                        if o[0] in ("c", "m") and len(o[1]) == 1 and o[1][0] in locs and i < len(rv[1][3]):
+                            return "->" + rv[1][3][i]
     return None
 
 
